@@ -83,7 +83,7 @@ Definition C15_wrappers_statement : Prop :=
   (* for every stream of conforming frames, every cut, reader kind, ending and each of the four
      repaired wrappers: the loop followed by its wrapper hands over exactly the complete frames
      (plus a blocking reader's truncated body), leaves the server released (stop flag set, pool
-     shut down, asyncio server closed), returns to its caller, and - TCP callback - has closed
+     shut down after its queued and running @thread handlers have completed, asyncio server closed), returns to its caller, and - TCP callback - has closed
      the connection's writer, which is what lets start_tcp return on Python 3.12 *)
   (forall w k e ms cut, repaired w = true -> Forall (conforming k) ms -> cut <= len (frames ms) ->
      exists s, serve w k e (take cut (frames ms))
